@@ -462,6 +462,14 @@ def run(report, p):
     found = False
     for n in walk_no_nested(seal.node):
         if isinstance(n, ast.Call) and isinstance(n.func, ast.Attribute) and n.func.attr == "append" and norm(n.func.value) == genlist and n.args:
+            # the value may come out of a helper that decides by itself when there is NO reference format to add (returns None on some paths): those
+            # conditions gate the append just like the ones written here - they are visible where the helper's body stands in its place
+            for o_raw in pr.origins(n.args[0], seal):
+                if o_raw[0] == "call" and o_raw[1] in p.funcs and p.funcs[o_raw[1]].name not in ("find_original_hash_entry_for_path",):
+                    hf_ = p.funcs[o_raw[1]]
+                    rets_ = [x for x in walk_no_nested(hf_.node) if isinstance(x, ast.Return)]
+                    if len(rets_) > 1 and any(x.value is None or (isinstance(x.value, ast.Constant) and x.value.value is None) for x in rets_):
+                        raise AnalysisError(f"{seal.loc(n)}: the reference format comes out of {hf_.name}(), which returns None on some of its paths: the conditions of the gating sit inside that helper (judged on the helper-inlined view)")
             for o in pr.origins(n.args[0], seal):
                 if o[0] == "attr" and o[2] == "hash_format" and is_call(o[1], "find_original_hash_entry_for_path"):
                     found = True
@@ -483,6 +491,30 @@ def run(report, p):
                     # same path as the validator: lookup on the routed child history with the routed path
                     lk = o[1]
                     r7.check(len(lk[2]) == 1, seal, n, "reference lookup arguments", construct="reference lookup")
+    # where the reference format is carried in a variable that is set to None on some paths (a helper's `return None`, expanded in place), every such path is
+    # one of the cases in which no reference is needed: nothing new is added / the file has no original entry / the original format is generated anyway
+    for n in walk_no_nested(seal.node):
+        if isinstance(n, ast.Call) and isinstance(n.func, ast.Attribute) and n.func.attr == "append" and norm(n.func.value) == genlist and n.args and isinstance(n.args[0], ast.Name):
+            vn = n.args[0].id
+            if not any(o[0] == "attr" and o[2] == "hash_format" and is_call(o[1], "find_original_hash_entry_for_path") for o in pr.origins(n.args[0], seal)):
+                continue
+            for a in [x for x in walk_no_nested(seal.node) if isinstance(x, ast.Assign) and len(x.targets) == 1 and isinstance(x.targets[0], ast.Name) and x.targets[0].id == vn and isinstance(x.value, ast.Constant) and x.value.value is None]:
+                from .common import atomic_deps as _ad4
+
+                atoms = [(a_, l_) for t_, l_ in g.necessary_branches(g.node_for(a)) for a_, l_ in _ad4(t_.ast, l_)]
+                inner = [(a_, l_) for a_, l_ in atoms if not a_.startswith("__done") and a_ not in ("existing_hash_formats", "len(existing_hash_formats) > 0", "existing_hash_formats and len(existing_hash_formats) > 0")]
+                if not inner:
+                    continue  # the initialisation
+                def _accepted(txt, lab):
+                    parts = [x.strip() for x in txt.split(" or ")] if lab == "T" else [txt]
+                    ok_all = True
+                    for part in parts:
+                        okp = (part.endswith(" is None") and lab == "T") or ((".hash_format in " in part) and lab == "T") or (part.startswith("all(") and " in existing" in part and lab == "T") or (part.startswith("any(") and " not in existing" in part and lab == "F")
+                        ok_all = ok_all and okp
+                    return ok_all
+                bad_ = [(a_, l_) for a_, l_ in inner if not _accepted(a_, l_)]
+                r7.instance(seal, a, f"{vn} = None under {[x[0][:40] for x in inner][:3]}")
+                r7.check(not bad_, seal, a, f"the validator's reference format is withheld (`{vn} = None`) when {'; '.join('`' + a_[:70] + '` is ' + ('true' if l_ == 'T' else 'false') for a_, l_ in bad_[:3])}: the validator still demands the format of the first original entry, so a run that adds a new format in that situation aborts with AssertionError on an unaltered file (e.g. -h xxh64, then -h md5, then -h md5 -h sha1)", construct=f"reference format withheld under {[x[0][:50] for x in bad_][:2]}")
     if not found:
         r7.instance(seal, seal.node, "sealer generate list")
         r7.check(False, seal, seal.node, "the sealer chooses the formats to generate from 'requested ∩ recorded, else the first recorded format', the validator demands the format of the first 'original' entry: "
